@@ -411,6 +411,146 @@ func runC05(r *Run) {
 			"Route.match can accept a request for a catch-all route without writing the wildcard's value: GET / on \"/*\" leaves params[0] as the previous request on that pooled context set it — Params(\"*\") answers secret/report.pdf: "+pathString(r.P, path))
 	})
 
+	r.rule("R9", "what goes back to the byte-buffer pool is not kept by the reply: in every function of the module that returns a bytebufferpool buffer to its pool (a plain or deferred Put), the buffer's bytes are handed to the request or response only through copying setters — never to fasthttp's SetBodyRaw / SetBodyStream family, which keep the slice they are given: the body would be a view of a buffer the next user of the pool (the logger, the handler, a concurrent request) overwrites before the reply is written (E1: retaining sink fed from a pooled buffer)", func() {
+		var fs []*ssa.Function
+		r.P.AllFuncs("*", func(f *ssa.Function) { fs = append(fs, f) })
+		retaining := func(cn string) bool {
+			for _, s := range []string{".SetBodyRaw", ".SetBodyStream", ".SetBodyStreamWriter", ".SetBodyString"} {
+				if strings.HasSuffix(cn, s) && s != ".SetBodyString" {
+					return true
+				}
+			}
+			return false
+		}
+		nFuncs, nSinks := 0, 0
+		for _, f := range fs {
+			// pooled buffers of the function: results of bytebufferpool Get that are also Put here
+			var bufs []ssa.Value
+			puts := 0
+			for _, b := range f.Blocks {
+				for _, in := range b.Instrs {
+					var cc *ssa.CallCommon
+					switch x := in.(type) {
+					case *ssa.Call:
+						cc = &x.Call
+					case *ssa.Defer:
+						cc = &x.Call
+					}
+					if cc == nil {
+						continue
+					}
+					cn := calleeName(cc)
+					if !strings.Contains(cn, "bytebufferpool") {
+						continue
+					}
+					if strings.HasSuffix(cn, ".Put") && len(cc.Args) > 0 {
+						puts++
+						bufs = append(bufs, stripValue(cc.Args[len(cc.Args)-1]))
+					}
+				}
+			}
+			if puts == 0 {
+				continue
+			}
+			nFuncs++
+			// fromBuf: v is a view of a pooled buffer's memory (not a copy of it): followed through reslicing, the
+			// buffer's B field / Bytes(), phis, local variables, and append onto such a view; a conversion through
+			// string, an append onto another base, and any other call give a copy (or something else)
+			isBuf := func(x ssa.Value) bool {
+				for _, b := range bufs {
+					if x == b {
+						return true
+					}
+				}
+				return false
+			}
+			seen := map[ssa.Value]bool{}
+			var fromBuf func(v ssa.Value) bool
+			fromBuf = func(v ssa.Value) bool {
+				if v == nil || seen[v] {
+					return false
+				}
+				seen[v] = true
+				if isBuf(v) {
+					return true
+				}
+				switch x := v.(type) {
+				case *ssa.Slice:
+					return fromBuf(x.X)
+				case *ssa.ChangeType:
+					return fromBuf(x.X)
+				case *ssa.MakeInterface:
+					return fromBuf(x.X)
+				case *ssa.Phi:
+					for _, e := range x.Edges {
+						if fromBuf(e) {
+							return true
+						}
+					}
+				case *ssa.FieldAddr:
+					return fromBuf(x.X)
+				case *ssa.Field:
+					return fromBuf(x.X)
+				case *ssa.UnOp:
+					if x.Op == token.MUL {
+						if a, ok := x.X.(*ssa.Alloc); ok {
+							for _, st := range storesInto(a) {
+								if fromBuf(st.Val) {
+									return true
+								}
+							}
+							return false
+						}
+						return fromBuf(x.X)
+					}
+				case *ssa.Call:
+					if bi, ok := x.Call.Value.(*ssa.Builtin); ok {
+						if bi.Name() == "append" && len(x.Call.Args) > 0 {
+							return fromBuf(x.Call.Args[0])
+						}
+						return false
+					}
+					cn := calleeName(&x.Call)
+					if strings.Contains(cn, "bytebufferpool.ByteBuffer).Bytes") && len(x.Call.Args) > 0 {
+						return fromBuf(x.Call.Args[0])
+					}
+					if strings.HasSuffix(cn, "utils.UnsafeBytes") || strings.HasSuffix(cn, "utils.UnsafeString") {
+						return len(x.Call.Args) > 0 && fromBuf(x.Call.Args[0])
+					}
+				}
+				return false
+			}
+			found := false
+			for _, b := range f.Blocks {
+				for _, in := range b.Instrs {
+					c, ok := in.(*ssa.Call)
+					if !ok {
+						continue
+					}
+					cn := calleeName(&c.Call)
+					if !retaining(cn) {
+						continue
+					}
+					for _, a := range c.Call.Args {
+						if _, isSlice := a.Type().Underlying().(*types.Slice); !isSlice {
+							continue
+						}
+						nSinks++
+						seen = map[ssa.Value]bool{}
+						if fromBuf(a) {
+							found = true
+							r.bad(short(f.String())+":pooled-buffer-not-retained", r.pos(c), "the bytes of a buffer this function returns to bytebufferpool are handed to "+short(cn)+", which keeps the slice: the body is a view of a recycled buffer — whoever takes the buffer next (logger, handler, another request) overwrites the reply before it is written")
+						}
+					}
+				}
+			}
+			if !found {
+				r.ok(short(f.String())+":pooled-buffer-not-retained", r.P.Pos(f.Pos()), "no retaining setter is fed from the pooled buffer")
+			}
+		}
+		r.atLeast("functions that return a bytebufferpool buffer", nFuncs, 8)
+	})
+
 	r.rule("R7", "a fasthttp.RequestCtx taken from a pool is wiped before request code sees it: on every path from the pool's Get to the first hand-over (AcquireCtx, a handler call) the request, the response and the user values (c.Locals) are reset (E1, every function of the module)", func() {
 		n := 0
 		r.P.AllFuncs("*", func(f *ssa.Function) {
